@@ -29,10 +29,18 @@ CONST_OPS = ['FULLY_CONNECTED', 'CONV_2D', 'DEPTHWISE_CONV_2D', 'BATCH_MATMUL',
                                                      # does not know, with a constant operand
 
 
+BW_OPS = ['FULLY_CONNECTED'] * 4 + ['EMBEDDING_LOOKUP', 'BATCH_MATMUL', 'MAXIMUM', 'ADD', 'TANH']
+
+
 @st.composite
 def cases(draw, tier):
+  # a sub-population the blockwise (emulated sub-channel) transformation accepts:
+  # rank-3 activations, bias-free FULLY_CONNECTED with NONE/RELU
+  bw = draw(st.integers(0, 5)) == 0
   mspec = draw(G.model_specs(max_nodes=8 if tier == 'thorough' else 6,
-                             min_nodes=2, max_subgraphs=2, ops=CONST_OPS,
+                             min_nodes=2, max_subgraphs=2,
+                             ops=BW_OPS if bw else CONST_OPS,
+                             **({'force_fam': 3, 'fc_plain': True} if bw else {}),
                              reuse_const=True, share_buffers=True, dedup=True,
                              dim_choices=[2, 4], reuse_odds=1, share_odds=1,
                              # incl. degenerate contents (all-zero / constant
@@ -40,18 +48,30 @@ def cases(draw, tier):
                              const_styles=G.CONST_STYLES_SANE + ['zeros', 'zeros', 'constant', 'lattice']))
   names = engine.op_out_names(mspec)
   groups = _sharer_groups(mspec)
-  if groups and draw(st.integers(0, 2)):
+  if groups and (bw or draw(st.integers(0, 2))):
     # give the consumers of one shared constant individually drawn treatments
     import re as _re
     grp = draw(st.sampled_from(groups))
     rules = []
+    fc_outs = [o for o in grp if _is_fc_out(mspec, o)]
+    # blockwise population: one FULLY_CONNECTED sharer gets blockwise weights,
+    # the others mostly stay float (no rule / explicit opt-out)
+    the_bw = draw(st.sampled_from(fc_outs)) if bw and fc_outs and draw(st.integers(0, 3)) else None
     for out_name in grp:
-      is_fc = any(n['op'] == 'FULLY_CONNECTED' and sg['tensors'][n['out'][0]]['name'] == out_name
-                  for sg in mspec['subgraphs'] for n in sg['nodes'])
-      algo, c = draw(st.sampled_from(R.COMMON_CFGS + [(R.NOQ, R.DEFAULT)] * 3 +
-                                     ([BLOCKWISE] * 6 if is_fc else [])))
+      is_fc = out_name in fc_outs
+      if out_name == the_bw:
+        algo, c = BLOCKWISE
+      elif the_bw is not None and draw(st.integers(0, 2)):
+        if draw(st.booleans()):
+          continue
+        algo, c = R.NOQ, R.DEFAULT
+      else:
+        algo, c = draw(st.sampled_from(R.COMMON_CFGS + [(R.NOQ, R.DEFAULT)] * 3 +
+                                       ([BLOCKWISE] * 6 if is_fc else [])))
       rules.append(R.rule(_re.escape(out_name), '*', algo, dict(c)))
-    if draw(st.booleans()):
+    if not rules:
+      rules.append(R.rule(_re.escape(grp[0]), '*', R.NOQ, dict(R.DEFAULT)))
+    if draw(st.booleans()) and (the_bw is None or draw(st.integers(0, 2)) == 0):
       algo, c = draw(st.sampled_from(R.COMMON_CFGS))
       rules.insert(0, R.rule('.*', '*', algo, dict(c)))
     recipe = {'kind': 'rules', 'rules': rules}
@@ -66,6 +86,13 @@ def cases(draw, tier):
 
 
 _sharer_groups = G.sharer_groups
+
+
+def _is_fc_out(mspec, out_name):
+  return any(n['op'] == 'FULLY_CONNECTED' and sg['tensors'][n['out'][0]]['name'] == out_name
+             for sg in mspec['subgraphs'] for n in sg['nodes'])
+
+
 # blockwise (emulated sub-channel) weights: reachable with skip_checks only
 BLOCKWISE = (R.MINMAX, R.cfg(w=[8, True, 'BLOCKWISE', 'INT', 2], cp='FLOAT', ed=True, skip=True))
 
@@ -80,6 +107,9 @@ def check_case(case):
   if not out.ok:
     return core.result(False, labels + ['rejected:' + core.exc_bucket(out.exc)[:60]])
   labels.append('returned')
+  if any(((r.get('cfg') or {}).get('w') or [0, 0, ''])[2] == 'BLOCKWISE'
+         for r in case['recipe'].get('rules', [])):
+    labels.append('returned_with_blockwise_rule')
   src, res = fb.parse(out.model_bytes), fb.parse(out.qbytes)
   # --- every buffer: all referencing tensors agree with the stored bytes
   users = {}
